@@ -19,6 +19,7 @@ func init() {
 			"D2 torn logs replay their prefix: WALSegmentReader.Next adds to the valid-byte count only when both reads, the snappy decode and the entry's UnmarshalBinary all succeeded, an unknown entry type is an error, only Next and Reset write the count, and Reset restores every field of the reader; typed block decoders' errors surface from DecodeBlock; " +
 			"D3 entries survive: no UnmarshalBinary of a WAL entry stores a slice that aliases the pooled decode buffer into the entry; " +
 			"D5 lossless scaling: in the timestamp encoders every delta that is divided by the power-of-ten divisor was tested for divisibility by it (the index range of the division is covered by the index range of the test). " +
+			"D6 in the three WAL entry encoders the output cursor advances only over bytes stored on that path (buf[..]=, binary.Put*, copy): the buffer comes from a pool and is not zeroed, so an arm that only advances the cursor writes a stale byte to the log. " +
 			"NOT decided: that the cursor arithmetic of the WAL entry decoders stays inside the buffer for every input (the guards bound a running cursor, i+16*nvals <= len(b) implies the per-value reads; proving that needs integer reasoning this analysis does not have), so the 'without crashing' clause is not claimed; simple8b/Gorilla/bit-packing arithmetic.",
 		RuleText:    "obligation = (rule, function, site | table row); typed-AST table extraction and agreement; outcome facts at the count update; who-may-write the count; alias taint on []byte-typed expressions inside UnmarshalBinary; index-range agreement between the divisibility test and the division",
 		Assumptions: commonAssumptions,
@@ -142,6 +143,7 @@ func runC13(c *core.Ctx) {
 	c.Clause("D2", func() { runWALReaderPrefix(c) })
 	c.Clause("D3", func() { runNoPooledAlias(c) })
 	c.Clause("D5", func() { runScaledDeltas(c) })
+	c.Clause("D6", func() { runEncodeCursorWritten(c) })
 }
 
 // ---- D1a: WAL entry registry ----------------------------------------------------------------
